@@ -37,6 +37,15 @@ func c01Assert(e *gen.Ex, d *gen.Doc, optDefault bool) {
 	} else {
 		v.Reach("C01/rejecting")
 		v.Assert(verr != nil, "C01/non-conforming-document-accepted")
+		// C17: a validation error points at the start of the offending value or key
+		if verr != nil {
+			if pos, known := gen.FirstBad(e, d, optDefault); known {
+				if pe, ok := verr.(interface{ Position() uint }); ok {
+					v.Reach("C17/validation-position")
+					v.Assert(int(pe.Position()) == pos, "C17/validation-error-position")
+				}
+			}
+		}
 	}
 }
 
